@@ -37,6 +37,8 @@
 (*  [t|->"load", x, o, f]       x = o.qf | x = o[f] | x = o["kf"]           *)
 (*  [t|->"if", cv, a, b]        if cv: a else: b    (cv a variable)         *)
 (*  [t|->"for", k, a]           for _i in range(k): a                       *)
+(*  [t|->"while", cv, a]        while cv: a          (at most MaxIter rounds) *)
+(*  [t|->"dec", x]              x = x - 1                                   *)
 (*  [t|->"ret", x]              return x                                    *)
 (* (how a store/load is written follows the variable name: o, p hold Box    *)
 (* objects, l a list, d a dict).                                            *)
@@ -101,7 +103,7 @@ RECURSIVE MayExitBlock(_), MayExit(_)
 MayExitBlock(blk) == \E i \in DOMAIN blk : MayExit(blk[i])
 MayExit(s) == CASE s.t = "ret" -> TRUE
                 [] s.t = "if" -> MayExitBlock(s.a) \/ MayExitBlock(s.b)
-                [] s.t = "for" -> MayExitBlock(s.a)
+                [] s.t \in {"for", "while"} -> MayExitBlock(s.a)
                 [] OTHER -> FALSE
 
 Arith(op, m, n) == IF op = "mul" THEN m * n ELSE m + n
@@ -125,14 +127,13 @@ CallG(s, p, st) ==
       val == IF tr THEN IntV(vy.v + st.env["G"].v) ELSE IntV(0)
   IN IF tr /\ ~IsInt(st.env["G"]) THEN [st2 EXCEPT !.flow = "x"] ELSE Def(st3, s.x, val, n + 2)
 
-RECURSIVE ExecBlock(_, _, _, _), ExecStmt(_, _, _), ForLoop(_, _, _, _, _)
+RECURSIVE ExecFrom(_, _, _, _, _), ExecStmt(_, _, _), ForLoop(_, _, _, _, _), WhileLoop(_, _, _, _, _)
 
-ExecBlock(blk, p, tag, st) ==
-  LET F[i \in 0..Len(blk)] ==
-        IF i = 0 THEN st
-        ELSE LET prev == F[i - 1]
-             IN IF prev.flow # "n" THEN prev ELSE ExecStmt(blk[i], p \o <<tag, i>>, prev)
-  IN F[Len(blk)]
+(* statements of a block are executed in order while control flows normally *)
+ExecFrom(blk, p, tag, st, i) ==
+  IF i > Len(blk) \/ st.flow # "n" THEN st
+  ELSE ExecFrom(blk, p, tag, ExecStmt(blk[i], p \o <<tag, i>>, st), i + 1)
+ExecBlock(blk, p, tag, st) == ExecFrom(blk, p, tag, st, 1)
 
 (* st.cd is the control context of this evaluation of the header; `outer` the context of the loop statement *)
 ForLoop(s, p, st, j, outer) ==
@@ -142,6 +143,19 @@ ForLoop(s, p, st, j, outer) ==
      THEN [st1 EXCEPT !.cd = outer \cup (IF MayExit(s) THEN {n} ELSE {})]
      ELSE LET st2 == ExecBlock(s.a, p, 1, st1)
           IN IF st2.flow = "n" THEN ForLoop(s, p, st2, j + 1, outer) ELSE st2
+
+(* every evaluation of the test is an instance reading the condition variable; the evaluation of round *)
+(* j > 1 is control dependent on the previous round (st.cd at the end of the body)                      *)
+MaxIter == 4
+WhileLoop(s, p, st, j, outer) ==
+  IF ~IsDef(st.env[s.cv]) THEN Err(st, p)
+  ELSE IF j > MaxIter + 1 THEN [AddInst(st, p, {}, {}) EXCEPT !.flow = "t"]     \* gave up: not a case
+  ELSE LET n == NextId(st)
+           st1 == [AddInst(st, p, st.ld[s.cv], {}) EXCEPT !.cd = {n}]
+       IN IF ~Truthy(st.env[s.cv])
+          THEN [st1 EXCEPT !.cd = outer \cup (IF MayExit(s) THEN {n} ELSE {})]
+          ELSE LET st2 == ExecBlock(s.a, p, 1, st1)
+               IN IF st2.flow = "n" THEN WhileLoop(s, p, st2, j + 1, outer) ELSE st2
 
 ExecStmt(s, p, st) ==
   LET n == NextId(st) IN
@@ -185,6 +199,10 @@ ExecStmt(s, p, st) ==
                  \* the decisions inside it that were passed)
                  ELSE [st2 EXCEPT !.cd = st.cd \cup (IF MayExit(s) THEN st2.cd ELSE {})]
     [] s.t = "for" -> ForLoop(s, p, st, 1, st.cd)
+    [] s.t = "while" -> WhileLoop(s, p, st, 1, st.cd)
+    [] s.t = "dec" ->
+         IF IsInt(st.env[s.x]) THEN Def(AddInst(st, p, st.ld[s.x], {}), s.x, IntV(st.env[s.x].v - 1), n)
+         ELSE Err(st, p)
     [] s.t = "ret" ->
          IF ~IsDef(st.env[s.x]) THEN Err(st, p)
          ELSE [AddInst(st, p, st.ld[s.x], {}) EXCEPT !.flow = "r", !.ret = n, !.retv = st.env[s.x]]
@@ -205,10 +223,13 @@ Run(prog, a, b) ==
       I == IF ok THEN Append(st.insts, crit) ELSE st.insts
       root == Len(I)
       PathsOf(S) == {I[i].p : i \in S} \ {TestPath}
+      C == Closure(I, root, FALSE)
   IN [flow |-> st.flow,
       retv |-> IF ok /\ IsInt(st.retv) THEN st.retv.v ELSE -99,
       lines |-> {st.insts[i].p : i \in 1..Len(st.insts)},
-      slice |-> IF ok THEN PathsOf(Closure(I, root, FALSE)) ELSE {},
+      slice |-> IF ok THEN PathsOf(C) ELSE {},
+      \* the dependence edges inside the slice, projected to paths: <<dependent, depended-on>>
+      edges |-> IF ok THEN UNION {{<<I[i].p, I[j].p>> : j \in I[i].d} : i \in C} ELSE {},
       strict |-> IF ok THEN PathsOf(Closure(I, root, TRUE)) ELSE {},
       retp |-> IF ok THEN st.insts[st.ret].p ELSE <<>>,
       ninst |-> Len(st.insts)]
@@ -220,7 +241,7 @@ ValidBlock(blk) ==
   /\ \A i \in 1..(Len(blk) - 1) : blk[i].t # "ret"     \* the compiler drops code after a return
 ValidStmt(s) ==
   CASE s.t = "if" -> s.a # <<>> /\ ValidBlock(s.a) /\ ValidBlock(s.b)
-    [] s.t = "for" -> s.a # <<>> /\ ValidBlock(s.a)
+    [] s.t \in {"for", "while"} -> s.a # <<>> /\ ValidBlock(s.a)
     [] OTHER -> TRUE
 ValidProg(prog) == prog # <<>> /\ ValidBlock(prog) /\ prog[Len(prog)].t = "ret"
 
@@ -235,5 +256,7 @@ Store(o, f, y) == [t |-> "store", o |-> o, f |-> f, y |-> y]
 Load(x, o, f) == [t |-> "load", x |-> x, o |-> o, f |-> f]
 If(cv, a, b) == [t |-> "if", cv |-> cv, a |-> a, b |-> b]
 For(k, a) == [t |-> "for", k |-> k, a |-> a]
+While(cv, a) == [t |-> "while", cv |-> cv, a |-> a]
+Dec(x) == [t |-> "dec", x |-> x]
 Ret(x) == [t |-> "ret", x |-> x]
 =============================================================================
